@@ -992,6 +992,8 @@ class Interp:
             va = a.view
             fa, na, fb = va.bit, va.n, vb.bit
             return _ex.SStr('bin', _ex.BA(na + vb.n, lambda i: _ex._sel2(i < na, fa, i, fb, i - na)))
+        if name == 'add' and (isinstance(a, _ex.SStr) and isinstance(b, str) or isinstance(b, _ex.SStr) and isinstance(a, str)):
+            return OpaqueStr()          # text built from digit strings: only ever printed
         symbolic = is_sym(a) or is_sym(b)
         if symbolic:
             if not (sym.is_intlike(a) and sym.is_intlike(b)):
@@ -1499,7 +1501,8 @@ class Interp:
         if isinstance(o, (str, bytes, bytearray)) and name in ('join',):
             def join(it):
                 items = list(self.iterate(it))
-                if any(isinstance(x, OpaqueStr) or is_sym(x) for x in items) or isinstance(o, OpaqueStr):
+                from . import extern as _ex2
+                if any(isinstance(x, (OpaqueStr, _ex2.SStr)) or is_sym(x) for x in items) or isinstance(o, OpaqueStr):
                     return OpaqueStr()
                 for x in items:
                     if not isinstance(x, (str, bytes, bytearray)):
@@ -1819,9 +1822,11 @@ class Interp:
             self.trace_calls.append(f.qualname)
         c = self.contracts.get(f.qualname)
         if c is not None and f.qualname != self.under_verification:
-            if self.used_contracts is not None:
-                self.used_contracts.add(f.qualname)
-            return c.apply(self, f, args, kwargs)
+            r = c.apply(self, f, args, kwargs)
+            if self.used_contracts is not None and not getattr(self, 'last_apply_inlined', False):
+                self.used_contracts.add(f.qualname)     # (a spec that declined -- INLINE -- was not relied on)
+            self.last_apply_inlined = False
+            return r
         loc = self.bind_args(f, args, kwargs)
         frame = Frame(loc, f.module, closure=f.closure, func=f)
         if isinstance(f.node, ast.Lambda):
